@@ -281,6 +281,18 @@ def sym_getitem(interp, obj, idx):
             return obj[slice(parts[0], parts[1], idx.step)]
         raise Unsupported(f"subscript of {type(obj).__name__} with symbolic {type(idx).__name__}")
     if _is_ndarray(obj):
+        if obj.ndim == 1 and isinstance(idx, slice) and not isinstance(idx.step, Sym):
+            n = len(obj)
+            parts = []
+            for b in (idx.start, idx.stop):
+                if isinstance(b, Sym):
+                    c = concretize_int(b, -n - 1, n + 1)
+                    if c is None:
+                        c = (n + 1) if sym.ctx().decide(sym.to_bool_term(b > 0)) else -(n + 1)
+                    parts.append(c)
+                else:
+                    parts.append(b)
+            return obj[slice(parts[0], parts[1], idx.step)]
         raise Unsupported("ndarray subscript with symbolic index")
     gi = _find_in_mro(type(obj), '__getitem__')
     if gi is not None and interp.is_repo_function(gi):
